@@ -1,5 +1,7 @@
 import FastorModel.Model.RandomViews
 import FastorModel.Proofs.RandomViews
+import FastorModel.Props.C04
+import FastorModel.Props.C05
 /-
 # C19 — Index-tensor and boolean-mask views select and update exactly the indexed items
 
@@ -40,6 +42,12 @@ Reading of the statements (model: `Model/RandomViews.lean`, which transcribes th
   `i*ncols+k`, row-major flat index of the multi-index), lanes = consecutive columns.  (This is the
   code after the `fix:` commit; before it these members used `i+k` and the sum of the multi-index.)
 * `flatIndex_bumpLast`, `teval_lanes`: the same for every rank.
+* `ctor2Gen_views`, `ctor2Gen_correct`, `ctor2_index_plus_range`: the two-index constructor loop (C04's `ctor2Writes` is
+  the instance for a range-view source) evaluating `A(it0,it1) + B(r0,r1)` stores `A[it0[i]*NCols+it1[j]] + B[documented (i,j)]`
+  at `i*N+j` and nothing else.
+* `rangeview2d_from_index_view`: `B(r0,r1) op= A(it0,it1)` through C05's `rowIters` (value + frame).
+* `index_view_from_range_view`, `mask_view_from_range_view`: `A(it) op= B(ranges)`, `A(mask) op= B(ranges)` with the offsets of
+  C04's flat evaluator, which `C04.read_correct` identifies with the documented element.
 * `filter_teval_rank3`: the multi-index members of a mask view (after the second `fix:` commit: lane `l` is the
   element at `(x,y,z+l)`; before it every lane held the element at `(x,y,z)`).
 
@@ -386,5 +394,172 @@ theorem filter_teval_rank3 (data : Nat → α) (mask : Nat → Bool) (V d0 d1 d2
 example : (List.range 6).map (exec (· * ·) (filterInstrs (fun k => k) (fun w p => (w : Int) * 10 + p)
     (fun i => i) (fun i => [true, false, true, true, false].getD i false) (.bin .add (.t 2) (.c 1)) 5) (fun p => (p : Int) + 1))
     = [1 * 21, 2, 3 * 23, 4 * 24, 5, 6] := by decide
+
+/-! ## composition with the range-view models of C04 (reads) and C05 (writes) -/
+
+/-- C04's constructor loop is the instance of `ctor2Gen` whose source is a range view -/
+theorem ctor2Gen_views (v : Views.View) (V M N : Nat) :
+    ctor2Gen V M N (fun i j => (v.eval2V V i j).2) v.eval2S = v.ctor2Writes V M N := rfl
+
+/-- **the two-index constructor loop with any source whose vector member is lane-wise**: exactly the positions
+    below `M*N` are stored to, position `i*N+j` receives `eval_s(i,j)` -/
+theorem ctor2Gen_correct {β : Type} (V M N : Nat) (hV : 0 < V) (hN : 0 < N) (vec : Nat → Nat → List β) (sc : Nat → Nat → β)
+    (hvec : ∀ i j, vec i j = (List.range V).map fun l => sc i (j + l)) :
+    WritesExactly (ctor2Gen V M N vec sc) (fun p => p < M * N) (fun p => sc (p / N) (p % N)) := by
+  unfold ctor2Gen
+  have hrows : (List.range M).flatMap (fun i =>
+      (forRange 0 (Views.roundDownV N V) V).flatMap (fun j => laneW (i * N + j) (vec i j)) ++
+      (forRange (forExit 0 (Views.roundDownV N V) V) N 1).map (fun j => (i * N + j, sc i j)))
+      = (List.range M).flatMap fun i => (List.range N).map fun j => (i * N + j, sc i j) := by
+    congr 1; funext i
+    exact ctor2_row V N i hV (vec i) (sc i) (hvec i)
+  simp only [] 
+  rw [hrows]
+  apply writesExactly_of_all_right
+  · intro w hw
+    obtain ⟨i, hi, hw⟩ := List.mem_flatMap.1 hw
+    obtain ⟨j, hj, rfl⟩ := List.mem_map.1 hw
+    rw [List.mem_range] at hi hj
+    have h1 : (i * N + j) / N = i := by
+      rw [Nat.mul_comm, Nat.mul_add_div hN, Nat.div_eq_of_lt hj]; simp
+    have h2 : (i * N + j) % N = j := by
+      rw [Nat.mul_comm, Nat.mul_add_mod, Nat.mod_eq_of_lt hj]
+    refine ⟨?_, by simp only [h1, h2]⟩
+    show i * N + j < M * N
+    have : (i + 1) * N ≤ M * N := Nat.mul_le_mul_right _ (by omega)
+    rw [Nat.add_mul] at this; omega
+  · intro p hp
+    refine ⟨(p / N * N + p % N, sc (p / N) (p % N)), ?_, ?_⟩
+    · apply List.mem_flatMap.2
+      refine ⟨p / N, List.mem_range.2 ((Nat.div_lt_iff_lt_mul hN).2 hp), ?_⟩
+      exact List.mem_map.2 ⟨p % N, List.mem_range.2 (Nat.mod_lt _ hN), rfl⟩
+    · show p / N * N + p % N = p
+      rw [Nat.mul_comm]; exact Nat.div_add_mod p N
+
+section
+variable {α : Type} [Add α]
+/-- **`Tensor<T,M,N> X = A(it0,it1) + B(r0,r1)`** (index view and 2-D range view in one 2-D expression, evaluated by the
+    two-index constructor loop): `X(i,j) = A[it0[i]*NCols + it1[j]] + B[documented element (i,j) of the slice]`,
+    nothing else is stored. -/
+theorem ctor2_index_plus_range (cls : Views.Cls) (h2 : Views.is2D cls) (m n : Nat) (a0 a1 : Views.Ax)
+    (A B : Nat → α) (junk it0 it1 : Nat → Nat) (ncols V M N : Nat) (hV : 0 < V) (hN : 0 < N) :
+    let it := storesTo junk (flatII ncols M N it0 it1)
+    let v := Views.View.mk cls [m, n] [a0, a1]
+    let ws := ctor2Gen V M N
+      (fun i j => List.zipWith (· + ·) (evalV2 A it V N i j) ((v.eval2V V i j).2.map B))
+      (fun i j => evalS2 A it N i j + B (v.eval2S i j))
+    WritesExactly ws (fun p => p < M * N)
+      (fun p => A (it0 (p / N) * ncols + it1 (p % N)) + B (Views.specOff [m, n] [a0, a1] [p / N, p % N])) := by
+  intro it v ws
+  have hlanes : ∀ i j, List.zipWith (· + ·) (evalV2 A it V N i j) ((v.eval2V V i j).2.map B)
+      = (List.range V).map fun l => evalS2 A it N i (j + l) + B (v.eval2S i (j + l)) := by
+    intro i j
+    apply List.ext_getElem?
+    intro l
+    by_cases hl : l < V
+    · have e1 := eval2_lanes A it V N i j l hl
+      have e2 := (Views.eval2V_lane cls h2 m n a0 a1 V i j l hl).1
+      rw [List.getElem?_zipWith, e1, List.getElem?_map, e2]
+      simp [hl, v]
+    · have hlen1 : (evalV2 A it V N i j).length = V := by
+        unfold evalV2; rw [vectorSetter_eq]; simp [laneInds, forRange_zero_one]
+      have hge : V ≤ l := by omega
+      rw [List.getElem?_zipWith, List.getElem?_eq_none (by rw [hlen1]; exact hge)]
+      simp [hge]
+  have h := ctor2Gen_correct V M N hV hN
+    (fun i j => List.zipWith (· + ·) (evalV2 A it V N i j) ((v.eval2V V i j).2.map B))
+    (fun i j => evalS2 A it N i j + B (v.eval2S i j)) hlanes
+  intro p
+  have hp := h p
+  constructor
+  · intro hlt
+    rw [hp.1 hlt]
+    have hi : p / N < M := (Nat.div_lt_iff_lt_mul hN).2 hlt
+    have hj : p % N < N := Nat.mod_lt _ hN
+    simp only [eval2_ii A junk it0 it1 ncols M N (p / N) (p % N) hi hj, it, v,
+      Views.eval2S_correct cls h2 m n a0 a1]
+  · exact hp.2
+end
+
+section compose
+variable {α : Type} [Zero α] [Add α] [Sub α] [Mul α] [Div α]
+
+omit [Zero α] in
+/-- **`B(r0,r1) op= A(it0,it1)`** (C05's 2-D range-view write loop with a per-axis index view as the source):
+    element `(i,k)` of the slice of `B`, at `(step0*i+first0)*NB + k*step1+first1`, ends as
+    `op(old, A[it0[i]*NCols + it1[k]])`; every other position of `B` is unchanged. -/
+theorem rangeview2d_from_index_view (e : Nat) (he : e ≤ 64) (vea : Bool) (NB : Nat) (a0 a1 : ViewWrite.Ax)
+    (hn : a1.ext < 2 ^ 64) (hs0 : 0 < a0.step) (hs1 : 0 < a1.step) (hin : ∀ k < a1.ext, k * a1.step + a1.first < NB)
+    (op : ViewWrite.WOp) (A : Nat → α) (junk it0 it1 : Nat → Nat) (ncols : Nat) (B : Nat → α) :
+    let it := storesTo junk (flatII ncols a0.ext a1.ext it0 it1)
+    let B' := ViewWrite.exec op (fun _ j => evalS2 A it a1.ext (j / a1.ext) (j % a1.ext)) (ViewWrite.rowIters (2 ^ e) vea NB a0 a1) B
+    let pos := fun i k => (a0.step * i + a0.first) * NB + (k * a1.step + a1.first)
+    (∀ i < a0.ext, ∀ k < a1.ext, B' (pos i k) = op.ap (B (pos i k)) (A (it0 i * ncols + it1 k))) ∧
+    (∀ p, (∀ i < a0.ext, ∀ k < a1.ext, p ≠ pos i k) → B' p = B p) := by
+  intro it B' pos
+  have h := C05.write_correct_2d e he vea NB a0 a1 hn hs0 hs1 hin op
+    (fun j => evalS2 A it a1.ext (j / a1.ext) (j % a1.ext)) B
+  refine ⟨?_, h.2⟩
+  intro i hi k hk
+  have h1 := h.1 i hi k hk
+  have hN : 0 < a1.ext := by omega
+  have hd : (i * a1.ext + k) / a1.ext = i := by
+    rw [Nat.mul_comm, Nat.mul_add_div hN, Nat.div_eq_of_lt hk]; simp
+  have hm : (i * a1.ext + k) % a1.ext = k := by
+    rw [Nat.mul_comm, Nat.mul_add_mod, Nat.mod_eq_of_lt hk]
+  simp only [hd, hm] at h1
+  rw [eval2_ii A junk it0 it1 ncols a0.ext a1.ext i k hi hk] at h1
+  exact h1
+
+omit [Div α] in
+/-- **`A(it) op= B(ranges)`** (a range view of any class as the right-hand side of an index view, both
+    assignment paths): with duplicate-free indices `A[it[j]]` ends as `op(A[it[j]], B[off_j])`, where `off_j` is
+    what C04's flat evaluator `eval_s(j)` of the range view reads; by `C04.read_correct` that is the documented
+    element `jj` of the slice when `j` is the row-major position of the multi-index `jj`. -/
+theorem index_view_from_range_view (vea : Bool) (ap : α → α → α) (ofInt : Int → α) (it : Nat → Nat) (mask : Nat → Bool)
+    (A B : Nat → α) (v : Views.View) (hwf : v.WF) (ex : Nat) (hn : v.size < 2 ^ 64) (hex : ex ≤ 64)
+    (hnd : ((List.range v.size).map it).Nodup) :
+    let env : Nat → Nat → α := fun _ j => B (v.evalS j)
+    let A' := exec ap (scatter vea ofInt env it mask (.t 2) v.size (2 ^ ex)) A
+    (∀ jj, Views.InRange (Views.vdims v.axs) jj →
+        A' (it (Views.rowMajor (Views.vdims v.axs) jj))
+          = ap (A (it (Views.rowMajor (Views.vdims v.axs) jj))) (B (Views.specOff v.pdims v.axs jj))) ∧
+    (∀ p, (∀ j, j < v.size → it j ≠ p) → A' p = A p) := by
+  intro env A'
+  have h := random_write vea ap ofInt env it mask (.t 2) A v.size ex hn hex hnd
+  refine ⟨?_, h.2⟩
+  intro jj hjj
+  have hlt : Views.rowMajor (Views.vdims v.axs) jj < v.size := Views.rowMajor_lt hjj
+  refine (h.1 _ hlt).trans ?_
+  simp only [RandomViews.evalS, env, C04.read_correct v hwf jj hjj]
+
+omit [Div α] in
+/-- **`A(mask) op= B(ranges)`**: every `p < n` with `mask p` ends as `op(A p, B[off_p])`, `off_p` the offset C04's
+    `eval_s(p)` of the range view reads (the documented element by `C04.read_correct`); all other positions keep
+    their value. -/
+theorem mask_view_from_range_view (ap : α → α → α) (ofInt : Int → α) (it : Nat → Nat) (mask : Nat → Bool)
+    (A B : Nat → α) (v : Views.View) (hwf : v.WF) :
+    let env : Nat → Nat → α := fun _ j => B (v.evalS j)
+    let A' := exec ap (filterInstrs ofInt env it mask (.t 2) v.size) A
+    (∀ jj, Views.InRange (Views.vdims v.axs) jj →
+        A' (Views.rowMajor (Views.vdims v.axs) jj)
+          = if mask (Views.rowMajor (Views.vdims v.axs) jj) = true
+            then ap (A (Views.rowMajor (Views.vdims v.axs) jj)) (B (Views.specOff v.pdims v.axs jj))
+            else A (Views.rowMajor (Views.vdims v.axs) jj)) ∧
+    (∀ p, v.size ≤ p → A' p = A p) := by
+  intro env A'
+  constructor
+  · intro jj hjj
+    have hlt : Views.rowMajor (Views.vdims v.axs) jj < v.size := Views.rowMajor_lt hjj
+    show exec ap _ A _ = _
+    rw [filter_write]
+    simp only [hlt, true_and, RandomViews.evalS, env, C04.read_correct v hwf jj hjj]
+  · intro p hp
+    show exec ap _ A _ = _
+    rw [filter_write]
+    have : ¬ p < v.size := by omega
+    simp [this]
+
+end compose
 
 end Fastor.C19
